@@ -45,3 +45,32 @@ Proof. rewrite gen_looksLikeUUID_eq. reflexivity. Qed.
 
 Theorem search_looksLikeUUID_is_generated (s : string) : Search.looksLikeUUID s = looksLikeUUID s.
 Proof. rewrite gen_looksLikeUUID_eq. reflexivity. Qed.
+
+(** entity-name check: the model's [check_name] is the generated [util::checkEntityName] *)
+Require NixV.Store.DbOps.
+
+Lemma str_len_0 (s : string) : (str_len s =? 0) = Db.is_empty_str s.
+Proof. destruct s; reflexivity. Qed.
+
+Lemma prefix_slash (s : string) :
+  String.prefix "/" s = match s with String c _ => Ascii.eqb c "/"%char | EmptyString => false end.
+Proof.
+  destruct s as [|c r]; [reflexivity|]. cbn [String.prefix].
+  destruct (ascii_dec "/"%char c) as [<-|N].
+  - destruct r; reflexivity.
+  - symmetry. apply Ascii.eqb_neq. congruence.
+Qed.
+
+Lemma str_contains_slash (s : string) : str_contains s "/" = Db.has_slash s.
+Proof.
+  induction s as [|c r IH]; [reflexivity|].
+  cbn [str_contains Db.has_slash]. rewrite prefix_slash. fold str_contains. rewrite IH.
+  unfold Db.slash. destruct (Ascii.eqb c "/"%char); reflexivity.
+Qed.
+
+Theorem db_check_name_is_generated (name : string) :
+  DbOps.check_name name = match checkEntityName name with Ok _ => None | Err e => Some e | UB _ => None end.
+Proof.
+  unfold DbOps.check_name, checkEntityName, nameCheck. rewrite str_len_0, str_contains_slash.
+  destruct (Db.is_empty_str name); [reflexivity|]. destruct (Db.has_slash name); reflexivity.
+Qed.
